@@ -38,9 +38,37 @@ type c07RowB struct {
 	B  int64
 	S  string
 	P  int64 `sql:",implicitnull"`
+	T  string
+	U  string
+	Y  []byte
 }
 
-var c07Cols = []string{"id", "a", "b", "s", "p"}
+var c07Cols = []string{"id", "a", "b", "s", "p", "t", "u", "y"}
+
+// c07At: element i of a row tuple (older recorded cases are shorter: 0)
+func c07At(r []int64, i int) int64 {
+	if len(r) > i {
+		return r[i]
+	}
+	return 0
+}
+
+func c07SpIdx(v driver.Value) int64 {
+	s := fmt.Sprint(fsNorm(v))
+	for i, x := range c10SpaceStrs {
+		if x == s {
+			return int64(i)
+		}
+	}
+	return 0
+}
+
+func c07Blob(i int64) []byte {
+	if i == 0 {
+		return []byte{}
+	}
+	return []byte("x")
+}
 
 // c07P: the fifth element of a row tuple (older recorded cases have four: NULL)
 func c07P(r []int64) int64 {
@@ -190,7 +218,8 @@ func c07ModelRow(r map[string]driver.Value) interface{} {
 	if r["p"] != nil {
 		pv = toInt64(r["p"])
 	}
-	return []interface{}{[]interface{}{0, toInt64(r["id"])}, []interface{}{1, a}, []interface{}{2, toInt64(r["b"])}, []interface{}{3, sv}, []interface{}{5, pv}}
+	return []interface{}{[]interface{}{0, toInt64(r["id"])}, []interface{}{1, a}, []interface{}{2, toInt64(r["b"])}, []interface{}{3, sv}, []interface{}{5, pv},
+		[]interface{}{6, 100 + c07SpIdx(r["t"])}, []interface{}{7, 100 + c07SpIdx(r["u"])}, []interface{}{8, int64(len(fmt.Sprint(fsNorm(r["y"]))))}}
 }
 
 // c07EncFilter: the filter in the model's terms: 0 on the implicitnull column means NULL
@@ -210,7 +239,11 @@ func c07EncFilter(f []c10KV) interface{} {
 // string or []byte, NULL as nil
 func (w *c07World) binlogRow(table string, r map[string]driver.Value, bad int) []interface{} {
 	id := toInt64(r["id"])
-	val := map[string]interface{}{"id": id, "a": nil, "b": int32(toInt64(r["b"])), "s": fmt.Sprint(r["s"]), "p": nil}
+	val := map[string]interface{}{"id": id, "a": nil, "b": int32(toInt64(r["b"])), "s": fmt.Sprint(r["s"]), "p": nil,
+		"t": fmt.Sprint(fsNorm(r["t"])), "u": fmt.Sprint(fsNorm(r["u"])), "y": []byte(fmt.Sprint(fsNorm(r["y"])))}
+	if w.rnd.Chance(0.3) {
+		val["t"] = []byte(fmt.Sprint(fsNorm(r["t"])))
+	}
 	if r["a"] != nil {
 		if w.rnd.Bool() {
 			val["a"] = int32(toInt64(r["a"]))
@@ -401,7 +434,8 @@ func (w *c07World) push(ch chan *replication.BinlogEvent, n int) {
 }
 
 func c07Row(r []int64) *c10Row {
-	row := &c10Row{Id: r[0], B: r[2], S: fmt.Sprintf("s%d", r[3]), P: c07P(r)}
+	row := &c10Row{Id: r[0], B: r[2], S: fmt.Sprintf("s%d", r[3]), P: c07P(r),
+		T: c10SpaceStrs[int(c07At(r, 5))%len(c10SpaceStrs)], U: c10SpaceStrs[int(c07At(r, 6))%len(c10SpaceStrs)], Y: c07Blob(c07At(r, 7))}
 	if r[1] >= 0 {
 		a := r[1]
 		row.A = &a
@@ -411,15 +445,15 @@ func c07Row(r []int64) *c10Row {
 
 func c07RowBOf(r []int64) *c07RowB {
 	x := c07Row(r)
-	return &c07RowB{Id: x.Id, A: x.A, B: x.B, S: x.S, P: x.P}
+	return &c07RowB{Id: x.Id, A: x.A, B: x.B, S: x.S, P: x.P, T: x.T, U: x.U, Y: x.Y}
 }
 
-func c07FullRow(id int64, a *int64, b int64, s string, p int64) string {
+func c07FullRow(id int64, a *int64, b int64, s string, p int64, t, u string, y []byte) string {
 	as := "NULL"
 	if a != nil {
 		as = fmt.Sprint(*a)
 	}
-	return fmt.Sprintf("%d|%s|%d|%s|%d", id, as, b, s, p)
+	return fmt.Sprintf("%d|%s|%d|%s|%d|%s|%s|%d", id, as, b, s, p, t, u, len(y))
 }
 
 // c07RowView: what a QueryRow caller holds: the row, nothing (sql.ErrNoRows), or the refusal of several rows
@@ -445,7 +479,7 @@ func (w *c07World) direct(db *sqlgen.DB, q c07Query) ([]int64, []string, error) 
 		}
 		for _, r := range out {
 			ids = append(ids, r.Id)
-			full = append(full, c07FullRow(r.Id, r.A, r.B, r.S, r.P))
+			full = append(full, c07FullRow(r.Id, r.A, r.B, r.S, r.P, r.T, r.U, r.Y))
 		}
 	} else {
 		var out []*c07RowB
@@ -454,7 +488,7 @@ func (w *c07World) direct(db *sqlgen.DB, q c07Query) ([]int64, []string, error) 
 		}
 		for _, r := range out {
 			ids = append(ids, r.Id)
-			full = append(full, c07FullRow(r.Id, r.A, r.B, r.S, r.P))
+			full = append(full, c07FullRow(r.Id, r.A, r.B, r.S, r.P, r.T, r.U, r.Y))
 		}
 	}
 	return ids, full, nil
@@ -476,7 +510,8 @@ func c07One(c *Ctx, m *Model, cs c07Case) {
 		rows := []interface{}{}
 		if t < len(cs.Init) {
 			for _, r := range cs.Init[t] {
-				row := map[string]driverValue{"id": r[0], "a": driverNull(r[1], r[1] < 0), "b": r[2], "s": fmt.Sprintf("s%d", r[3]), "p": driverNull(c07P(r), c07P(r) == 0)}
+				row := map[string]driverValue{"id": r[0], "a": driverNull(r[1], r[1] < 0), "b": r[2], "s": fmt.Sprintf("s%d", r[3]), "p": driverNull(c07P(r), c07P(r) == 0),
+					"t": c10SpaceStrs[int(c07At(r, 5))%len(c10SpaceStrs)], "u": c10SpaceStrs[int(c07At(r, 6))%len(c10SpaceStrs)], "y": c07Blob(c07At(r, 7))}
 				fdb.tables[name].Rows = append(fdb.tables[name].Rows, row)
 				rows = append(rows, c07ModelRow(row))
 			}
@@ -734,14 +769,14 @@ func c07One(c *Ctx, m *Model, cs c07Case) {
 						err = query(&out)
 						for _, r := range out {
 							ids = append(ids, r.Id)
-							full = append(full, c07FullRow(r.Id, r.A, r.B, r.S, r.P))
+							full = append(full, c07FullRow(r.Id, r.A, r.B, r.S, r.P, r.T, r.U, r.Y))
 						}
 					} else {
 						var out []*c07RowB
 						err = query(&out)
 						for _, r := range out {
 							ids = append(ids, r.Id)
-							full = append(full, c07FullRow(r.Id, r.A, r.B, r.S, r.P))
+							full = append(full, c07FullRow(r.Id, r.A, r.B, r.S, r.P, r.T, r.U, r.Y))
 						}
 					}
 				}
@@ -757,12 +792,12 @@ func c07One(c *Ctx, m *Model, cs c07Case) {
 					if q.Table == 0 {
 						var one *c10Row
 						if err = ldb.QueryRow(ctx, &one, c10Filter(q.Filter), nil); err == nil {
-							ids, full1 = []int64{one.Id}, []string{c07FullRow(one.Id, one.A, one.B, one.S, one.P)}
+							ids, full1 = []int64{one.Id}, []string{c07FullRow(one.Id, one.A, one.B, one.S, one.P, one.T, one.U, one.Y)}
 						}
 					} else {
 						var one *c07RowB
 						if err = ldb.QueryRow(ctx, &one, c10Filter(q.Filter), nil); err == nil {
-							ids, full1 = []int64{one.Id}, []string{c07FullRow(one.Id, one.A, one.B, one.S, one.P)}
+							ids, full1 = []int64{one.Id}, []string{c07FullRow(one.Id, one.A, one.B, one.S, one.P, one.T, one.U, one.Y)}
 						}
 					}
 					full = full1
@@ -1036,14 +1071,23 @@ func derefAny(v interface{}) interface{} {
 }
 
 func c07GenRow(r *Rand) []int64 {
-	return []int64{int64(1 + r.Intn(8)), int64(r.Intn(4)) - 1, int64(r.Intn(3)), int64(r.Intn(3)), []int64{0, 0, 1, 2}[r.Intn(4)]}
+	return []int64{int64(1 + r.Intn(8)), int64(r.Intn(4)) - 1, int64(r.Intn(3)), int64(r.Intn(3)), []int64{0, 0, 1, 2}[r.Intn(4)],
+		int64(r.Intn(2)), int64(2 + r.Intn(2)), int64(r.Intn(2))}
 }
 
 // c07GenFilter: C10's filters on the plain columns, and filters on the implicitnull column carried in the driver's
 // own types (int64) and others: 0 selects the NULLs
 func c07GenFilter(r *Rand) []c10KV {
-	if r.Chance(0.75) {
+	if r.Chance(0.65) {
 		return c10GenFilter(r)
+	}
+	if r.Chance(0.3) {
+		// two string columns with blanks: ("a b","c") and ("a","b c") are different argument lists that print alike
+		return []c10KV{{"t", c10Val{"sp", int64(r.Intn(2))}}, {"u", c10Val{"sp", int64(2 + r.Intn(2))}}}
+	}
+	if r.Chance(0.25) {
+		// a blob column: the empty blob is a value, not NULL
+		return []c10KV{{"y", c10Val{"bytes", int64(r.Intn(2))}}}
 	}
 	pv := c10Val{[]string{"int64", "int64", "int", "named"}[r.Intn(4)], []int64{0, 0, 1, 2}[r.Intn(4)]}
 	if r.Chance(0.3) {
@@ -1078,6 +1122,11 @@ func c07Gen(r *Rand) c07Case {
 		}
 		if i > 0 && r.Chance(0.3) {
 			q.Group = cs.Queries[i-1].Group // shares a rerunner with its predecessor: cache hits
+			if prev := cs.Queries[i-1]; len(prev.Filter) == 2 && prev.Filter[0].Col == "t" && prev.Filter[1].Col == "u" && r.Chance(0.7) {
+				// the look-alike of its predecessor's argument list, on the same table
+				q.Table, q.Kind = prev.Table, prev.Kind
+				q.Filter = []c10KV{{"t", c10Val{"sp", 1 - prev.Filter[0].Val.V}}, {"u", c10Val{"sp", 5 - prev.Filter[1].Val.V}}}
+			}
 		}
 		cs.Queries = append(cs.Queries, q)
 	}
@@ -1150,7 +1199,7 @@ func runC07(c *Ctx) error {
 		return err
 	}
 	defer m.Close()
-	c.Rep.Rule = "random histories on a real livesql.LiveDB over the fake SQL driver and a livesql.Binlog fed in-process: 1-4 live queries (LiveDB.Query, LiveDB.QueryRow whose caller carries on after 'no row' / 'several rows', or AddDependency + plain read; two tables; filters over id / a (nullable pointer, nil filters) / b / s / p (an implicitnull column: 0 selects the NULLs, carried as int64, int or a named type) in several Go representations; alone or sharing a rerunner so that reruns hit the reactive cache) x 4-24 operations (InsertRow, UpsertRow, UpdateRow, DeleteRow, InsertRows, UpsertRows; events handed to the poll loop late, in bursts, between registration and read; events in go-mysql's typed representation with varying integer widths and []byte strings; undecodable events: column count, type mismatch, odd update; noise: other schema, unknown table, table map with a new id, other event types; the columns of a table change their order, announced by a table map event with a new id, later events in the new order); after writes stop, each live query's rows are compared with the database's answer (the property), every tracked event must reach the tracker, and the linearised log (write / register / read / deliver) is replayed in the Lean model: accepted, same events, same invalidated queries per delivery, quiescent, same rows"
+	c.Rep.Rule = "random histories on a real livesql.LiveDB over the fake SQL driver and a livesql.Binlog fed in-process: 1-4 live queries (LiveDB.Query, LiveDB.QueryRow whose caller carries on after 'no row' / 'several rows', or AddDependency + plain read; two tables; filters over id / a (nullable pointer, nil filters) / b / s / p (an implicitnull column: 0 selects the NULLs, carried as int64, int or a named type) / t,u (strings with blanks: argument lists that print alike, in one rerunner) / y (a blob that may be empty) in several Go representations; alone or sharing a rerunner so that reruns hit the reactive cache) x 4-24 operations (InsertRow, UpsertRow, UpdateRow, DeleteRow, InsertRows, UpsertRows; events handed to the poll loop late, in bursts, between registration and read; events in go-mysql's typed representation with varying integer widths and []byte strings; undecodable events: column count, type mismatch, odd update; noise: other schema, unknown table, table map with a new id, other event types; the columns of a table change their order, announced by a table map event with a new id, later events in the new order); after writes stop, each live query's rows are compared with the database's answer (the property), every tracked event must reach the tracker, and the linearised log (write / register / read / deliver) is replayed in the Lean model: accepted, same events, same invalidated queries per delivery, quiescent, same rows"
 	c.Rep.Assumptions = append(c.Rep.Assumptions,
 		"the change log carries the before / after images of exactly the rows a statement changed (MySQL row-based replication with full row images; here: the fake database)",
 		"go-mysql's wire decoding is not exercised: events enter at replication.BinlogStreamer")
